@@ -15,13 +15,16 @@ use crate::refmodel::{distinct_rows, ref_cmp, ref_eq};
 use crate::sut::{self, rows_json, Outcome, RVal};
 
 fn defs(kt: &str) -> String {
-    format!("CREATE TABLE t({{ .k }} => k {kt}, {{ .x }} => x INT, {{ .m }} => m TEXT);\nCREATE TABLE u({{ .k }} => k {kt}, {{ .y }} => y INT, {{ .x }} => x INT);", kt = kt)
+    format!("CREATE TABLE t({{ .k }} => k {kt}, {{ .x }} => x INT, {{ .m }} => m TEXT);\nCREATE TABLE u({{ .k }} => k {kt}, {{ .y }} => y INT, {{ .x }} => x INT);", kt = kt.split(':').next().unwrap())
 }
 
 fn keys(kt: &str) -> [(&'static str, RVal); 3] {
     match kt {
         "TEXT" => [("\"a\"", RVal::Text("a".into())), ("\"b\"", RVal::Text("b".into())), ("\"c\"", RVal::Text("c".into()))],
         "INT" => [("1", RVal::Int(1)), ("2", RVal::Int(2)), ("3", RVal::Int(3))],
+        // neighbours beyond 2^53 (equal once rounded to a double) and beyond 2^63 (equal once saturated to an i64)
+        "INT:big" => [("9007199254740993", RVal::Int(9007199254740993)), ("9007199254740992", RVal::Int(9007199254740992)), ("9007199254740994", RVal::Int(9007199254740994))],
+        "REAL:big" => [("1e19", RVal::Real(1e19)), ("2e19", RVal::Real(2e19)), ("1e19", RVal::Real(1e19))],
         _ => [("0.0", RVal::Real(0.0)), ("1.5", RVal::Real(1.5)), ("-0.0", RVal::Real(-0.0))],
     }
 }
@@ -47,7 +50,7 @@ fn main_alpha(kt: &str) -> Vec<(String, Option<MainRow>)> {
         (format!("{{\"k\":{},\"x\":1,\"m\":\"m\"}}", ks[0].0), Some(MainRow { k: ks[0].1.clone(), x: RVal::Int(1), m: m.clone() })),
         (format!("{{\"k\":{},\"x\":2,\"m\":\"m\"}}", ks[1].0), Some(MainRow { k: ks[1].1.clone(), x: RVal::Int(2), m: m.clone() })),
         ("{\"x\":3,\"m\":\"m\"}".to_string(), Some(MainRow { k: RVal::Null, x: RVal::Int(3), m: m.clone() })),
-        (format!("{{\"k\":{},\"x\":4,\"m\":\"m\"}}", if kt == "REAL" { ks[2].0 } else { ks[0].0 }), Some(MainRow { k: if kt == "REAL" { ks[2].1.clone() } else { ks[0].1.clone() }, x: RVal::Int(4), m: m.clone() })),
+        (format!("{{\"k\":{},\"x\":4,\"m\":\"m\"}}", if kt.starts_with("REAL") { ks[2].0 } else { ks[0].0 }), Some(MainRow { k: if kt.starts_with("REAL") { ks[2].1.clone() } else { ks[0].1.clone() }, x: RVal::Int(4), m: m.clone() })),
         ("not a row".to_string(), None),
     ]
 }
@@ -60,7 +63,7 @@ fn joined_alpha(kt: &str) -> Vec<(String, Option<JoinedRow>)> {
         ("{\"y\":30,\"x\":300}".to_string(), Some(JoinedRow { k: RVal::Null, y: RVal::Int(30), x: RVal::Int(300) })),
         (format!("{{\"k\":{},\"y\":40,\"x\":400}}", ks[0].0), Some(JoinedRow { k: ks[0].1.clone(), y: RVal::Int(40), x: RVal::Int(400) })),
         ("zzz".to_string(), None),
-        (format!("{{\"k\":{},\"y\":50}}", if kt == "REAL" { "7.5" } else { ks[2].0 }), Some(JoinedRow { k: if kt == "REAL" { RVal::Real(7.5) } else { ks[2].1.clone() }, y: RVal::Int(50), x: RVal::Null })),
+        (format!("{{\"k\":{},\"y\":50}}", if kt.starts_with("REAL") { "7.5" } else { ks[2].0 }), Some(JoinedRow { k: if kt.starts_with("REAL") { RVal::Real(7.5) } else { ks[2].1.clone() }, y: RVal::Int(50), x: RVal::Null })),
     ]
 }
 
@@ -462,7 +465,7 @@ fn line_ending_layer(col: &Collector) -> u64 {
 pub fn run(ctx: &Ctx) -> i32 {
     let col = Collector::new();
     let maxlen = ctx.tier.pick(2, 3) as u32;
-    for kt in ["TEXT", "INT", "REAL"] {
+    for kt in ["TEXT", "INT", "REAL", "INT:big", "REAL:big"] {
         let tables = sut::make_tables(&defs(kt)).unwrap();
         let km = main_alpha(kt).len() as u64;
         let kj = joined_alpha(kt).len() as u64;
